@@ -51,6 +51,9 @@ func classes(f iogen.SeqFile) []string {
 	if len(f.Recs) >= 30 {
 		l = append(l, "many-short-reads")
 	}
+	if f.TmplCap > 0 && len(f.Recs) >= 2 {
+		l = append(l, "template-owns-an-empty-buffer")
+	}
 	for i := 1; i < len(f.Recs); i++ {
 		if f.Recs[i].Len > 255 && f.Recs[i-1].Len > f.Recs[i].Len {
 			l = append(l, "read-over-255-letters-after-a-longer-one")
@@ -130,14 +133,14 @@ func TestFasta(t *testing.T) {
 	vlib.Run(t, vlib.Prop[iogen.SeqFile]{Name: "fasta-roundtrip", Checks: 2500, Thorough: 200000,
 		Gen:   func(t *rapid.T) iogen.SeqFile { return iogen.GenSeqFile(t, "fasta", maxRecs(), true) },
 		Check: checkRoundTrip, Classes: classes,
-		MinFrac: map[string]float64{"seq>4096": 0.02, "empty-seq": 0.05, "records>=2": 0.3, "len-multiple-of-width": 0.03}})
+		MinFrac: map[string]float64{"seq>4096": 0.02, "empty-seq": 0.05, "records>=2": 0.3, "len-multiple-of-width": 0.03, "template-owns-an-empty-buffer": 0.08}})
 }
 
 func TestFastq(t *testing.T) {
 	vlib.Run(t, vlib.Prop[iogen.SeqFile]{Name: "fastq-roundtrip", Checks: 2500, Thorough: 200000,
 		Gen:   func(t *rapid.T) iogen.SeqFile { return iogen.GenSeqFile(t, "fastq", maxRecs(), true) },
 		Check: checkRoundTrip, Classes: classes,
-		MinFrac: map[string]float64{"seq>4096": 0.02, "empty-seq": 0.05, "records>=2": 0.3, "quality-line-starts-with-marker": 0.02, "score-at-range-end": 0.1}})
+		MinFrac: map[string]float64{"seq>4096": 0.02, "empty-seq": 0.05, "records>=2": 0.3, "quality-line-starts-with-marker": 0.02, "score-at-range-end": 0.1, "template-owns-an-empty-buffer": 0.08}})
 }
 
 // Format verbs: %a, %<w>a, %q, %+q of linear.Seq and linear.QSeq are a second
